@@ -18,8 +18,11 @@ VERIF = os.path.dirname(os.path.dirname(os.path.abspath(__file__)))
 REPO = os.environ.get("VERIF_REPO", "/repo")
 SPEC = os.path.join(VERIF, "spec")
 HARNESS = os.path.join(VERIF, "harness")
-EVIDENCE = os.path.join(VERIF, "evidence")
-REPLAYS = os.path.join(VERIF, "replays")
+# VERIF_OUT redirects evidence and replay files (used when a check is run against a mutated scratch copy of the
+# repository, so that the committed evidence always describes the unchanged tree)
+_OUT = os.environ.get("VERIF_OUT")
+EVIDENCE = os.path.join(_OUT, "evidence") if _OUT else os.path.join(VERIF, "evidence")
+REPLAYS = os.path.join(_OUT, "replays") if _OUT else os.path.join(VERIF, "replays")
 KNOWN = os.path.join(VERIF, "known_findings.txt")
 QUIC_DIR = "/root/go/pkg/mod/github.com/libp2p/go-libp2p@v0.22.0/p2p/transport/quic"
 NCPU = os.cpu_count() or 4
